@@ -57,8 +57,8 @@ def run(tier):
         "evaluations": stats["queries"],
         "distinct_nontrivial": stats["statements"],
         "rule": "T: histories of committed statements (create / upsert / update / rename / archive / tombstone / retract / "
-                "supersede / merge, plus refused ones) on a fresh nexus; after every commit a battery of 19 queries "
-                "(element, tuple, structural, joined structural, filter, explicit-state, aggregate, ordered and hop-quantified path "
+                "supersede / merge, plus refused ones) on a fresh nexus; after every commit a battery of 21 queries "
+                "(element, tuple, structural, joined structural, filter, explicit-state, aggregate, ordered, hop-quantified path and projected-belief "
                 "patterns) is recorded live (History.tla: Commit); after EVERY later statement every earlier point is "
                 "replayed AS OF SEQ s, and every third statement also AS OF TX and AS OF TIME of that point: each "
                 "answer must be AsOf(s) (byte-equal result digests); AppendOnly as a temporal property; the epistemic "
@@ -70,7 +70,7 @@ def run(tier):
     vlib.write_evidence(PROP, tier, "exploration", cov, time.time() - t0, n_viol, assumptions=[
         "purges are excluded from these histories (only an explicit purge may remove the past)",
         "schema activation between points (resolution under the schema environment of that point) is not exercised",
-        "belief / slot projection patterns are not part of the battery (C20 decides projections)",
+        "two belief projections are in the battery (fixed FOR TIME instant); slot projections are not",
     ])
     vlib.cleanup(wd)
     return n_viol
